@@ -36,7 +36,8 @@ def one(rng, method, pool, variant, size='small', flags=None, perturb=None):
         pairs, maxlog2, out = 512, 12, 512
     elif size == 'crowd':
         # many workers polling at once (no polling pool), many requests outstanding while new ones are submitted
-        pairs, maxlog2, out = rng.choice([128, 192]), 10, rng.choice([96, 128])
+        pairs = rng.choice([128, 256, 512])
+        maxlog2, out = 10, rng.choice([pairs, pairs // 2, 96])    # long request vectors: compaction takes a while
     else:  # big messages
         pairs, maxlog2, out = rng.choice([12, 24]), 22, rng.choice([2, 6])
     threads = rng.choice([2, 3, 4]) if size != 'many' else 4
